@@ -484,9 +484,13 @@ _CAUSE = re.compile(r"\[([a-z0-9-]+)\]$")
 def report_rt_fails(chk: Check, label, traces, results, rejected, detail_of):
     """Register violations for failed clauses; one per (event, clause) so that nothing is masked."""
     seen = set()
-    for r in results:
+    recs = []
+    for r in sorted(results, key=lambda r: r.out):       # shards finish in any order; report deterministically
         chk.add_tlc(r, "LLUDPFrame_Trace " + label)
-        for rec in r.printed():
+        recs += [x for x in r.printed() if isinstance(x, dict) and "fail" in x]
+    recs.sort(key=lambda x: (x["eid"], x["fail"]))
+    for _ in (0,):
+        for rec in recs:
             if not (isinstance(rec, dict) and "fail" in rec):
                 continue
             key = (rec["eid"], rec["fail"])
